@@ -177,8 +177,34 @@ def cppscan_demo():
         fail("CppScan: the real preprocessor differs: %s" % json.dumps((drift + tv + lv)[0])[:300])
 
 
+def flagprov_demo():
+    """FlagProv.tla on hand-made events: justified beliefs are accepted, each kind of stale belief is refused"""
+    from vf import flagprov
+    I = lambda mn, op="": dict(k="instr", mn=mn, op=op)
+    L = lambda n: dict(k="label", mn="", op=n)
+    evs = [("ok", "Absolute(\"a\", true, 0)", [I("LDA", "a")]),
+           ("stale", "X", [I("DEX"), I("ASL", "s"), I("ROL", "s+1")]),                                     # flags after a 16-bit shift
+           ("stale", "Absolute(\"b\", true, 0)", [I("LDA", "a"), I("BEQ", ".else1"), I("LDA", "b"), I("BEQ", ".else1"), I("LDX", "#1"), I("JMP", ".ifend1"), L(".else1")]),
+           ("ok", "Absolute(\"b\", true, 0)", [I("LDA", "b"), I("BEQ", ".else1"), I("LDX", "#1"), I("JMP", ".ifend1"), L(".else1")]),
+           ("stale", "AbsoluteX(\"arr\")", [I("LDA", "arr,X"), I("INX")]),
+           ("stale", "Absolute(\"a\", true, 0)", [I("LDA", "a"), I("STA", "b"), I("LDY", "#0"), I("STA", "(p),Y")]),
+           ("ok", "Absolute(\"b\", true, 0)", [I("LDA", "a"), I("STA", "b"), I("STA", "c")]),
+           ("stale", "Absolute(\"a\", true, 0)", [I("LDA", "a"), I("STA", "(p),Y")]),                  # the indirect store may hit a
+           ("ok", "A", [I("LDA", "a"), I("CMP", "#0")]),
+           ("stale", "Absolute(\"sb\", true, 0)", [I("JSR", "f"), I("STA", "sb")]),                     # flags after a call are the callee's
+           ("stale", "A", [I("LDA", "a"), I("INC", "v")])]
+    events = [dict(id="e%d" % i, want=flagprov.wanted(b), lines=[flagprov.conv(l) for l in code]) for i, (_, b, code) in enumerate(evs)]
+    res, ver = flagprov.validate(events, "self")
+    for i, (want, b, _) in enumerate(evs):
+        if ver["e%d" % i]["ok"] != (want == "ok"):
+            fail("FlagProv: event %d (belief %s) judged %s, expected %s" % (i, b, ver["e%d" % i]["ok"], want))
+    print("selftest: FlagProv.tla accepts the %d justified beliefs and refuses the %d stale ones of its hand-made events" %
+          (sum(1 for e in evs if e[0] == "ok"), sum(1 for e in evs if e[0] == "stale")))
+
+
 if __name__ == "__main__":
     try:
+        flagprov_demo()
         cppscan_demo()
         inline_demo()
         peephole_demo()
